@@ -1,7 +1,7 @@
 (** C12 — missing_bindings lists exactly the unbound keys, prerequisites first.
     Statements only; proofs live in Proofs/SchemeProofs.v. *)
 From PM Require Import Model.Prelude Model.Scheme Model.DomTable Spec.TopoSpec
-  Proofs.SchemeProofs Proofs.SchemeTotal.
+  Proofs.SchemeProofs Proofs.SchemeTotal Cert.SchemeCheck Proofs.SchemeCheckSound.
 
 Theorem c12_missing_ok :
   forall (K : Type) (keqb : K -> K -> bool) (req : K -> list K),
@@ -51,6 +51,24 @@ Theorem c12_all_missing_terminates :
         exists l, all_missing_bindings keqb req fuel keys known = Ok l.
 Proof. exact @all_missing_terminates. Qed.
 
+(** The property fixes the set of listed keys and "prerequisites first", not one
+    particular order.  When the implementation's list differs from the model's,
+    the check evaluates [valid_answerb] (extracted) on the implementation's list
+    with the model's answer as the reference set: any list it accepts satisfies
+    the same four clauses. *)
+Theorem c12_valid_answer_sound :
+  forall (K : Type) (keqb : K -> K -> bool) (req : K -> list K),
+    (forall a b, keqb a b = true <-> a = b) ->
+    forall (fuel : nat) (keys known l out : list K),
+      acyclic req ->
+      all_missing_bindings keqb req fuel keys known = Ok l ->
+      valid_answerb keqb req known l out = true ->
+      NoDup out
+      /\ (forall x, In x out <-> closure_list req (fun x => In x known) keys x)
+      /\ prereq_first req (fun x => In x known) out
+      /\ (forall x, In x out -> ~ In x known).
+Proof. exact @valid_answer_sound. Qed.
+
 (** D1: the algorithm of the pinned commit (keys marked visited when pushed)
     violates the prerequisite-first clause on a shared prerequisite. *)
 Definition d1_req (k : N) : list N :=
@@ -88,5 +106,6 @@ Print Assumptions c12_missing_ok.
 Print Assumptions c12_missing_known_nil.
 Print Assumptions c12_all_missing_ok.
 Print Assumptions c12_missing_terminates.
+Print Assumptions c12_valid_answer_sound.
 Print Assumptions c12_all_missing_terminates.
 Print Assumptions c12_pinned_refuted.
